@@ -57,4 +57,224 @@ theorem step_inv (max : Nat) (s s' : List PC) (i : Nat) (h : holdingCount s ≤ 
       simp only [holdingCount] at h ⊢; omega
     | done => simp at hs
 
+/-! ### the dispatching loop (`Sys`) -/
+
+theorem allDone_get (ts : List PC) (h : allDone ts = true) (i : Nat) (pc : PC) (hi : ts[i]? = some pc) :
+    pc = .idle ∨ pc = .done := by
+  have hm : pc ∈ ts := List.mem_of_getElem? hi
+  simp only [allDone, List.all_eq_true] at h
+  have := h pc hm
+  cases pc <;> simp_all
+
+theorem allDone_counts (ts : List PC) (h : allDone ts = true) : aliveCount ts = 0 ∧ holdingCount ts = 0 := by
+  induction ts with
+  | nil => simp [aliveCount, holdingCount]
+  | cons x xs ih =>
+    simp only [allDone, List.all_cons, Bool.and_eq_true] at h
+    have ih' := ih (by simpa [allDone] using h.2)
+    have h1 := h.1
+    simp only [aliveCount, holdingCount, List.filter_cons] at ih' ⊢
+    cases x <;> simp_all [PC.holds]
+
+/-- with no spawned thread left nothing can move any more -/
+theorem stepBatch_none_of_allDone (max : Nat) (s : Sys) (i : Nat) (h : allDone s.threads = true) :
+    stepBatch max s i = none := by
+  unfold stepBatch
+  cases hg : s.threads[i]? with
+  | none => simp [stepThread, hg]
+  | some pc =>
+    rcases allDone_get _ h i pc hg with rfl | rfl
+    · rfl
+    · simp [stepThread, hg]
+
+/-- the closure has returned only if no spawned batch thread is left -/
+def RetInv (s : Sys) : Prop := s.disp = .returned → allDone s.threads = true
+
+theorem stepSys_retInv (max : Nat) (s s' : Sys) (e : Ev) (h : RetInv s) (hs : stepSys max s e = some s') : RetInv s' := by
+  cases e with
+  | clientDies =>
+    simp only [stepSys, Option.some.injEq] at hs; subst hs; exact h
+  | thread i =>
+    simp only [stepSys] at hs
+    intro hr
+    by_cases hd : s.disp = .returned
+    · rw [stepBatch_none_of_allDone max s i (h hd)] at hs; cases hs
+    · unfold stepBatch at hs
+      split at hs
+      · cases hs
+      · cases hst : stepThread max s.threads i with
+        | none => simp [hst] at hs
+        | some ts => simp only [hst, Option.map_some, Option.some.injEq] at hs; subst hs; exact absurd hr hd
+  | dispatch =>
+    simp only [stepSys, stepDisp] at hs
+    intro hr
+    cases hd : s.disp with
+    | looping =>
+      simp only [hd] at hs
+      split at hs
+      · split at hs
+        · cases hs
+        · split at hs <;> (simp only [Option.some.injEq] at hs; subst hs; first | (simp at hr; done) | simp [hd] at hr)
+      · simp only [Option.some.injEq] at hs; subst hs; simp at hr
+    | draining =>
+      simp only [hd] at hs
+      split at hs
+      · rename_i hall
+        simp only [Option.some.injEq] at hs; subst hs; exact hall
+      · cases hs
+    | returned => simp [hd] at hs
+
+theorem execSys_retInv (max : Nat) (evs : List Ev) (s : Sys) (h : RetInv s) : RetInv (execSys max s evs) := by
+  induction evs generalizing s with
+  | nil => exact h
+  | cons e es ih =>
+    simp only [execSys]
+    cases hs : stepSys max s e with
+    | none => exact ih s h
+    | some s' => exact ih s' (stepSys_retInv max s s' e h hs)
+
+/-- no step of the dispatching system lets the number of held permits exceed `max` -/
+theorem stepSys_holding (max : Nat) (s s' : Sys) (e : Ev) (h : holdingCount s.threads ≤ max)
+    (hs : stepSys max s e = some s') : holdingCount s'.threads ≤ max := by
+  cases e with
+  | clientDies => simp only [stepSys, Option.some.injEq] at hs; subst hs; exact h
+  | thread i =>
+    simp only [stepSys, stepBatch] at hs
+    split at hs
+    · cases hs
+    · cases hst : stepThread max s.threads i with
+      | none => simp [hst] at hs
+      | some ts =>
+        simp only [hst, Option.map_some, Option.some.injEq] at hs; subst hs
+        exact step_inv max s.threads ts i h hst
+  | dispatch =>
+    simp only [stepSys, stepDisp] at hs
+    cases hd : s.disp with
+    | looping =>
+      simp only [hd] at hs
+      split at hs
+      · cases hst : stepThread max s.threads s.next with
+        | none => simp [hst] at hs
+        | some ts =>
+          simp only [hst] at hs
+          split at hs
+          · simp only [Option.some.injEq] at hs; subst hs; exact step_inv max s.threads ts s.next h hst
+          · simp only [Option.some.injEq] at hs; subst hs; exact h
+      · simp only [Option.some.injEq] at hs; subst hs; exact h
+    | draining =>
+      simp only [hd] at hs
+      split at hs
+      · simp only [Option.some.injEq] at hs; subst hs; exact h
+      · cases hs
+    | returned => simp [hd] at hs
+
+theorem execSys_holding (max : Nat) (evs : List Ev) (s : Sys) (h : holdingCount s.threads ≤ max) :
+    holdingCount (execSys max s evs).threads ≤ max := by
+  induction evs generalizing s with
+  | nil => exact h
+  | cons e es ih =>
+    simp only [execSys]
+    cases hs : stepSys max s e with
+    | none => exact ih s h
+    | some s' => exact ih s' (stepSys_holding max s s' e h hs)
+
+/-- batches that were not dispatched yet have no thread -/
+def NextInv (s : Sys) : Prop := ∀ j, s.next ≤ j → j < s.threads.length → s.threads[j]? = some .idle
+
+theorem stepThread_eq_set (max : Nat) (ts ts' : List PC) (i : Nat) (h : stepThread max ts i = some ts') :
+    ∃ pc, ts' = ts.set i pc := by
+  unfold stepThread at h
+  split at h
+  · split at h
+    · exact ⟨_, (Option.some.inj h).symm⟩
+    · cases h
+  · exact ⟨_, (Option.some.inj h).symm⟩
+  · exact ⟨_, (Option.some.inj h).symm⟩
+  · exact ⟨_, (Option.some.inj h).symm⟩
+  · cases h
+
+theorem stepSys_nextInv (max : Nat) (s s' : Sys) (e : Ev) (h : NextInv s) (hs : stepSys max s e = some s') : NextInv s' := by
+  cases e with
+  | clientDies => simp only [stepSys, Option.some.injEq] at hs; subst hs; exact h
+  | thread i =>
+    simp only [stepSys, stepBatch] at hs
+    split at hs
+    · cases hs
+    · rename_i hni
+      cases hst : stepThread max s.threads i with
+      | none => simp [hst] at hs
+      | some ts =>
+        simp only [hst, Option.map_some, Option.some.injEq] at hs; subst hs
+        obtain ⟨pc, rfl⟩ := stepThread_eq_set max _ _ _ hst
+        intro j hj hlen
+        simp only [List.length_set] at hlen
+        have hjdle := h j hj hlen
+        have hne : i ≠ j := by
+          intro heq; subst heq; exact hni hjdle
+        simp only [List.getElem?_set_ne hne]; exact hjdle
+  | dispatch =>
+    simp only [stepSys, stepDisp] at hs
+    cases hd : s.disp with
+    | looping =>
+      simp only [hd] at hs
+      split at hs
+      · cases hst : stepThread max s.threads s.next with
+        | none => simp [hst] at hs
+        | some ts =>
+          simp only [hst] at hs
+          split at hs
+          · simp only [Option.some.injEq] at hs; subst hs
+            obtain ⟨pc, rfl⟩ := stepThread_eq_set max _ _ _ hst
+            intro j hj hlen
+            simp only [List.length_set] at hlen
+            have hj' : s.next ≤ j := by simp only at hj; omega
+            have hne : s.next ≠ j := by simp only at hj; omega
+            simp only [List.getElem?_set_ne hne]; exact h j hj' hlen
+          · simp only [Option.some.injEq] at hs; subst hs; exact h
+      · simp only [Option.some.injEq] at hs; subst hs; exact h
+    | draining =>
+      simp only [hd] at hs
+      split at hs
+      · simp only [Option.some.injEq] at hs; subst hs; exact h
+      · cases hs
+    | returned => simp [hd] at hs
+
+theorem execSys_nextInv (max : Nat) (evs : List Ev) (s : Sys) (h : NextInv s) : NextInv (execSys max s evs) := by
+  induction evs generalizing s with
+  | nil => exact h
+  | cons e es ih =>
+    simp only [execSys]
+    cases hs : stepSys max s e with
+    | none => exact ih s h
+    | some s' => exact ih s' (stepSys_nextInv max s s' e h hs)
+
+theorem exists_holding (ts : List PC) (h : 0 < holdingCount ts) : ∃ (j : Nat) (pc : PC), ts[j]? = some pc ∧ pc.holds = true := by
+  have h' : 0 < (ts.filter PC.holds).length := h
+  obtain ⟨pc, hmem⟩ := List.exists_mem_of_length_pos h'
+  simp only [List.mem_filter] at hmem
+  obtain ⟨j, hj, rfl⟩ := List.mem_iff_getElem.mp hmem.1
+  exact ⟨j, ts[j], List.getElem?_eq_getElem hj, hmem.2⟩
+
+theorem exists_holding_of_not_allDone (ts : List PC) (h : allDone ts = false) : ∃ (j : Nat) (pc : PC), ts[j]? = some pc ∧ pc.holds = true := by
+  have : ¬ (∀ x ∈ ts, (x == PC.idle || x == PC.done) = true) := by
+    intro hall
+    have : allDone ts = true := by simpa [allDone] using hall
+    rw [this] at h; cases h
+  have ⟨x, hx, hnx⟩ : ∃ x ∈ ts, ¬ (x == PC.idle || x == PC.done) = true := by
+    by_cases hex : ∃ x ∈ ts, ¬ (x == PC.idle || x == PC.done) = true
+    · exact hex
+    · exfalso; apply this; intro x hx
+      by_cases hp : (x == PC.idle || x == PC.done) = true
+      · exact hp
+      · exact absurd ⟨x, hx, hp⟩ hex
+  obtain ⟨j, hj, rfl⟩ := List.mem_iff_getElem.mp hx
+  refine ⟨j, ts[j], List.getElem?_eq_getElem hj, ?_⟩
+  cases hpc : ts[j] <;> simp_all [PC.holds]
+
+/-- a thread that holds a permit can always move -/
+theorem stepBatch_some_of_holds (max : Nat) (s : Sys) (j : Nat) (pc : PC) (hj : s.threads[j]? = some pc)
+    (hh : pc.holds = true) : (stepBatch max s j).isSome = true := by
+  unfold stepBatch
+  cases pc <;> simp_all [stepThread, PC.holds]
+
 end ConfModel.Run
